@@ -108,6 +108,68 @@ func genSig(r *rand.Rand, id string, ver int, rich, bad bool) detection.Signatur
 	return s
 }
 
+// tweak returns a revision of s that differs from it in exactly one field (k selects which):
+// a later revision of an ID that is "almost the same" must still replace the earlier one.
+const nTweaks = 18
+
+func tweak(s detection.Signature, k int) detection.Signature {
+	f := &s.IdentifyingFeatures
+	cp := func(xs []string, add string) []string { return append(append([]string{}, xs...), add) }
+	switch k % nTweaks {
+	case 0:
+		if f.ControlFlow == nil {
+			f.ControlFlow = &detection.ControlFlowHints{HasInfiniteLoop: true}
+		} else {
+			f.ControlFlow = nil
+		}
+	case 1:
+		c := detection.ControlFlowHints{}
+		if f.ControlFlow != nil {
+			c = *f.ControlFlow
+		}
+		c.HasReconnectLogic = !c.HasReconnectLogic
+		f.ControlFlow = &c
+	case 2:
+		c := detection.ControlFlowHints{}
+		if f.ControlFlow != nil {
+			c = *f.ControlFlow
+		}
+		c.HasInfiniteLoop = !c.HasInfiniteLoop
+		f.ControlFlow = &c
+	case 3:
+		s.Name += "'"
+	case 4:
+		s.Description += " (rev)"
+	case 5:
+		s.Severity += "+"
+	case 6:
+		s.Category += "2"
+	case 7:
+		s.TopologyHash += "f"
+	case 8:
+		s.FuzzyHash += "z"
+	case 9:
+		s.EntropyScore += 0.5
+	case 10:
+		s.EntropyTolerance += 0.25
+	case 11:
+		s.NodeCount++
+	case 12:
+		s.LoopDepth++
+	case 13:
+		f.RequiredCalls = cp(f.RequiredCalls, "rev.Call")
+	case 14:
+		f.OptionalCalls = cp(f.OptionalCalls, "rev.Opt")
+	case 15:
+		f.StringPatterns = cp(f.StringPatterns, "rev-pattern")
+	case 16:
+		s.Metadata.Author += "x"
+	case 17:
+		s.Metadata.References = cp(s.Metadata.References, "ref:rev")
+	}
+	return s
+}
+
 type listOpts struct {
 	N      int
 	Rich   bool
@@ -137,6 +199,20 @@ func genList(r *rand.Rand, o listOpts) []detection.Signature {
 				id = out[i-1000].ID
 			default:
 				id = out[r.Intn(i)].ID
+			}
+		}
+		if id != "" && r.Intn(2) == 0 {
+			// a repeated ID whose latest earlier occurrence is revised in one field only
+			last := -1
+			for j := i - 1; j >= 0 && j >= i-1400; j-- {
+				if out[j].ID == id {
+					last = j
+					break
+				}
+			}
+			if last >= 0 {
+				out = append(out, tweak(out[last], r.Intn(nTweaks)))
+				continue
 			}
 		}
 		out = append(out, genSig(r, id, i, o.Rich, o.Bad))
